@@ -190,6 +190,8 @@ def _brief(e):
     op = e['op']
     if op in ('conv', 'convx'):
         return '%s%s %s -> %s (amount %s)' % (op, ' via text' if e.get('how') == 'str' else '', e['u'], e['v'], _f(e['a']))
+    if op == 'redecl':
+        return 're-declare %s' % e['s']
     if op == 'conv0':
         return 'conv 0 %s -> %s' % (e['u'], e['v'])
     if op in ('mul', 'div'):
@@ -232,6 +234,8 @@ def run(ctx):
     model(ctx)
     tab = table()
     cs = [dict(op='unit', s=u['s']) for u in tab] + [dict(op='count')] + [dict(op='nprefix')]
+    # rejected re-declarations of predefined symbols (first, so that everything after them sees their effect, if any)
+    cs = [dict(op='redecl', s=u['s']) for u in tab[:: (5 if quick else 1)]] + cs
     from_spec = ['yocto', 'zepto', 'atto', 'femto', 'pico', 'nano', 'micro', 'milli', 'centi', 'deci', 'deca',
                  'hecto', 'kilo', 'mega', 'giga', 'tera', 'peta', 'exa', 'zetta', 'yotta']
     cs += [dict(op='prefix', name=n) for n in from_spec]
